@@ -5,7 +5,7 @@
    decodable"), and the harness tests that contract on the real gzip/zstd/brotli wrappers.
    Hence the suffix _partial: partial by nature, relative to the codec contract. *)
 From Coq Require Import NArith List Bool.
-From GV Require Import Lib.Bytes C24.Model C24.Proofs.
+From GV Require Import Lib.Bytes C24.Model C24.Proofs C24.Pool.
 Import ListNotations.
 
 (* for every codec meeting the contract, every sequence of Writes (any sizes, empty ones included)
@@ -46,7 +46,31 @@ Theorem C24_flush_is_needed :
   /\ readable buf_codec [wire buf_codec (noflush_ops [[1; 2; 3]%N; [4]%N])] = [].
 Proof. exact flush_needed. Qed.
 
+(* no lifetime limit: the statement above is for write sequences of ANY length, in particular for a
+   cumulative volume beyond any size or memory option of a wrapper (explicit instance: n equal writes) *)
+Theorem C24_no_cumulative_limit_partial : forall c, codec_ok c -> forall p n chunks,
+  concat chunks = wire c (conn_ops (repeat p n)) -> readable c chunks = concat (repeat p n).
+Proof. intros c H p n chunks. apply (conn_lossless_prompt c H). Qed.
+
+(* gzip's lazy reader: whatever earlier connections on the same wrapper did (handshakes that failed in
+   the stream header included), a new connection's reader starts fresh and its first Read succeeds
+   whenever its own header is readable ... *)
+Theorem C24_failed_handshakes_do_not_poison_the_pool : forall c header_ok pool hs arrived,
+  header_ok arrived = true ->
+  snd (lazy_read c header_ok (wrap_real c (after_history_real c header_ok pool hs)) arrived)
+    = Some (snd (d_feed c (d_reset c) arrived)).
+Proof. exact first_read_after_any_history. Qed.
+(* ... whereas pooling the lazy reader itself, re-armed only when it had been initialised, is poisoned
+   for ever by one connection whose first read failed *)
+Theorem C24_pooled_lazy_reader_refuted : forall c header_ok bad hs arrived,
+  header_ok bad = false ->
+  snd (lazy_read c header_ok (after_history_variant c header_ok (Fresh c) ([bad] :: hs)) arrived) = None.
+Proof. exact variant_poisoned. Qed.
+
 Print Assumptions C24_lossless_and_prompt_partial.
+Print Assumptions C24_no_cumulative_limit_partial.
+Print Assumptions C24_failed_handshakes_do_not_poison_the_pool.
+Print Assumptions C24_pooled_lazy_reader_refuted.
 Print Assumptions C24_prompt_after_each_write_partial.
 Print Assumptions C24_incremental_partial.
 Print Assumptions C24_wire_only_grows.
